@@ -10,10 +10,22 @@ from . import prun
 
 def run(progs, fn, only=None, jobs=None):
     if only:
-        progs = [p for p in progs if only in p.name or only in p.family]
+        progs = [p for p in progs if _matches(only, p)]
     t0 = time.time()
     results = prun.run_programs(progs, fn, jobs)
     return results, summarise(progs, results, time.time() - t0)
+
+
+def _matches(only, p):
+    """--only: substring of the program name / family, or a regular expression over name, family and note"""
+    import re
+
+    if only in p.name or only in p.family:
+        return True
+    try:
+        return re.search(only, f"{p.name} {p.family} {p.note}") is not None
+    except re.error:
+        return False
 
 
 def summarise(progs, results, wall):
